@@ -29,11 +29,7 @@ func GetCacheBasePath() fs.AbsolutePath {
 	if pth == "" {
 		return GetRioBasePath().Join(fs.MustRelPath("cache"))
 	}
-	pth, err := filepath.Abs(pth)
-	if err != nil {
-		panic(err)
-	}
-	return fs.MustAbsolutePath(pth)
+	return absOrRooted(pth)
 }
 
 /*
@@ -47,11 +43,7 @@ func GetMountWorkPath() fs.AbsolutePath {
 	if pth == "" {
 		return GetRioBasePath().Join(fs.MustRelPath("mount"))
 	}
-	pth, err := filepath.Abs(pth)
-	if err != nil {
-		panic(err)
-	}
-	return fs.MustAbsolutePath(pth)
+	return absOrRooted(pth)
 }
 
 /*
@@ -65,9 +57,20 @@ func GetRioBasePath() fs.AbsolutePath {
 	if pth == "" {
 		pth = "/var/lib/timeless/rio"
 	}
-	pth, err := filepath.Abs(pth)
+	return absOrRooted(pth)
+}
+
+/*
+	An absolute form of a configured path.
+
+	A relative path is taken from the working directory; when there is no working directory
+	any more (it has been removed under us) it is taken from the root, which makes whatever is
+	attempted there fail with an ordinary error instead of taking the process down here.
+*/
+func absOrRooted(pth string) fs.AbsolutePath {
+	abs, err := filepath.Abs(pth)
 	if err != nil {
-		panic(err)
+		abs = filepath.Join("/", pth)
 	}
-	return fs.MustAbsolutePath(pth)
+	return fs.MustAbsolutePath(abs)
 }
